@@ -1161,6 +1161,7 @@ func runC17(c *Checker) {
 		})
 		c.decide(okStore && okReader, "CODEC-SIB", "EntropyToMnemonic|word i is the i-th bit group of the whole entropy", e2mF.Pos(), "passphrase[i] = DefaultWordList[ReadBits(...)] with i the loop counter; reader over entropy[:]",
 			"the words are not stored in reading order or the reader does not cover the whole entropy: the phrase typed by the client yields another entropy than the server's")
+		ruleMnemonicTotal(c, e2mF)
 		// words -> entropy: WriteBits in the body of the range loop, unconditionally, index from
 		// ReverseWordMap[word i]; result = copy(entropy[:], writer.Bytes())
 		okWrite, okCopy := false, false
